@@ -160,7 +160,7 @@ def corpus(ctx, tree, files):
             n += 1
     ctx.cov["traces_validated_against_impl"] += n
     ctx.cov["corpus_files_ok"] = n
-    if n == 0:
+    if n == 0 and not ctx.violations:        # with violations reported the run has a verdict already
         raise Infra("no corpus file could be compiled")
 
 
